@@ -7,6 +7,7 @@ import (
 	"os"
 	"os/exec"
 	"path/filepath"
+	"sort"
 	"strconv"
 	"strings"
 
@@ -26,6 +27,10 @@ func tkindOf(b mp4.Box) string {
 		return "senc"
 	case *mp4.TrunBox:
 		return "trun"
+	case *mp4.SbgpBox:
+		return "sbgp~" + hx.Hex([]byte((x.GroupingType + "    ")[:4]))
+	case *mp4.SgpdBox:
+		return "sgpd~" + hx.Hex([]byte((x.GroupingType + "    ")[:4]))
 	case *mp4.UUIDBox:
 		if x.SubType() == "senc" {
 			return "usenc"
@@ -384,7 +389,18 @@ func corr(e *env, seed uint64, n int) {
 		traf := &mp4.TrafBox{}
 		nb := r.Range(0, 7)
 		for j := 0; j < nb; j++ {
-			switch r.Intn(9) {
+			switch r.Intn(13) {
+			case 9, 10: // a sample group box of any grouping type, seig included
+				gt := []string{"roll", "rap ", "sync", "alst", "seig", "seig", "tele"}[r.Intn(7)]
+				if r.Bool() {
+					_ = traf.AddChild(asBox(sbgpBytes(gt, 1+j, 0x10001)))
+				} else {
+					_ = traf.AddChild(asBox(sgpdBytes(gt, groupEntry(gt, 16))))
+				}
+			case 11:
+				_ = traf.AddChild(asBox(subsBytes(1 + j)))
+			case 12:
+				_ = traf.AddChild(asBox(unknownUUIDBytes(j)))
 			case 0:
 				sz := mp4.NewSaizBox(1)
 				sz.AddSampleInfo(make([]byte, 16), nil)
@@ -437,7 +453,10 @@ func corr(e *env, seed uint64, n int) {
 		}
 		key := r.Bytes(16, nil)
 		iv := genIV(r, r.Pick(8, 16))
-		o := fragOpts{extraMoof: r.Pick(0, 1, 2, 3), extraTraf: r.Pick(0, 1, 2, 3), moofBefore: r.Bool()}
+		o := fragOpts{extraMoof: r.Pick(0, 1, 2, 3), extraTraf: r.Pick(0, 1, 2, 3), moofBefore: r.Bool(), wide: genWide(r, false)}
+		if scheme == "cenc" && r.Intn(8) == 0 {
+			o.wide.traf |= 1 << 11 // a seig group that agrees with the tenc InitProtect writes
+		}
 		fr := e.runFragment(codec, scheme, key, iv, samples, o, r)
 		if fr.class != "ok" {
 			continue
@@ -600,6 +619,7 @@ func fail(site, class, witness, desc string) {
 func (e *env) clearFile(codec byte, trackID uint32, samples [][]byte, o fragOpts, r *hx.Rng) ([]byte, *mp4.File) {
 	initF, err := mp4.DecodeFile(bytes.NewReader(e.initFor(codec)))
 	must(err)
+	applyWideInit(initF.Init, o.wide)
 	frag := buildFragment(trackID, samples, o, r)
 	seg := mp4.NewMediaSegmentWithoutStyp()
 	seg.AddFragment(frag)
@@ -609,6 +629,15 @@ func (e *env) clearFile(codec byte, trackID uint32, samples [][]byte, o fragOpts
 	f, err := mp4.DecodeFile(bytes.NewReader(buf.Bytes()))
 	must(err)
 	return buf.Bytes(), f
+}
+
+func sortedKeys(m map[string]string) []string {
+	ks := make([]string, 0, len(m))
+	for k := range m {
+		ks = append(ks, k)
+	}
+	sort.Strings(ks)
+	return ks
 }
 
 func boxTypes(ch []mp4.Box) string {
@@ -648,7 +677,12 @@ func search(e *env, seed uint64, n int, bins string) {
 		}
 		ivIn := genIV(r, r.Pick(8, 16))
 		key := r.Bytes(16, nil)
-		o := fragOpts{extraMoof: r.Pick(0, 0, 1, 2, 3), extraTraf: r.Pick(0, 1, 2, 3), moofBefore: r.Bool()}
+		// every tenth cenc fragment: the clear traf already carries a seig sample group that agrees with the tenc
+		// InitProtect writes (per-sample IV size 16).  seig groups are protection signalling: decrypt may keep or drop
+		// them, everything else must come back (a seig group that CONTRADICTS the tenc is outside the property's
+		// "clear track": ParseReadSenc rightly lets it override the tenc IV size and the written senc is misread)
+		seig := scheme == "cenc" && i%10 == 3
+		o := fragOpts{extraMoof: r.Pick(0, 0, 1, 2, 3), extraTraf: r.Pick(0, 1, 2, 3), moofBefore: r.Bool(), wide: genWide(r, seig)}
 		wit := fmt.Sprintf("codec=%c scheme=%s key=%s iv=%s opts=%+v samples=%s", codec, scheme, hx.Hex(key), hx.Hex(ivIn), o, samplesField(samples))
 		fr := e.runFragment(codec, scheme, key, ivIn, samples, o, r)
 		evals++
@@ -673,9 +707,10 @@ func search(e *env, seed uint64, n int, bins string) {
 			continue
 		}
 		clearRaw, clearF := e.clearFile(codec, fr.trackID, samples, o, r)
-		compareWithClear(wit, "api", clearRaw, clearF, dbuf.Bytes(), samples)
+		compareWithClearMod(wit, "api", clearRaw, clearF, dbuf.Bytes(), samples, seig)
 	}
 	searchFiles(e, r, n/2)
+	searchSinf(e, r, n/10+3)
 	if bins != "" {
 		searchBins(e, r, n/10+1, bins)
 	}
@@ -686,6 +721,10 @@ func search(e *env, seed uint64, n int, bins string) {
 
 // compareWithClear: byte-identical files, and if not, which clause of the property is broken.
 func compareWithClear(wit, via string, clearRaw []byte, clearF *mp4.File, decRaw []byte, samples [][]byte) {
+	compareWithClearMod(wit, via, clearRaw, clearF, decRaw, samples, false)
+}
+
+func compareWithClearMod(wit, via string, clearRaw []byte, clearF *mp4.File, decRaw []byte, samples [][]byte, moduloSeig bool) {
 	if bytes.Equal(clearRaw, decRaw) {
 		return
 	}
@@ -696,6 +735,16 @@ func compareWithClear(wit, via string, clearRaw []byte, clearF *mp4.File, decRaw
 	}
 	cf := clearF.Segments[0].Fragments[0]
 	df := decF.Segments[0].Fragments[0]
+	// every box that is not protection signalling present and unchanged: full child lists (type + bytes) of
+	// moov / trak / ... / stsd / sample entries / moof / traf, found by walking the bytes of both files
+	lists := compareChildListsMod(clearRaw, decRaw, moduloSeig)
+	for _, k := range sortedKeys(lists) {
+		switch k {
+		case "traf", "moof", "top":
+		default:
+			fail("mp4.DecryptInit", via+"-"+k+"-children", wit, lists[k])
+		}
+	}
 	// sample entry type and init
 	var ib1, ib2 bytes.Buffer
 	_ = clearF.Init.Encode(&ib1)
@@ -705,11 +754,15 @@ func compareWithClear(wit, via string, clearRaw []byte, clearF *mp4.File, decRaw
 		t2 := decF.Init.Moov.Trak.Mdia.Minf.Stbl.Stsd.Children[0].Type()
 		fail("mp4.DecryptInit", via+"-init-differs", wit, fmt.Sprintf("init segment differs after decrypt (sample entry %s vs %s)", t1, t2))
 	}
-	if a, b := boxTypes(cf.Moof.Children), boxTypes(df.Moof.Children); a != b {
+	if a, b := boxTypes(cf.Moof.Children), boxTypes(df.Moof.Children); a != b && !moduloSeig {
 		fail("mp4.DecryptFragment", via+"-moof-children", wit, "moof children "+b+" expected "+a)
+	} else if d, ok := lists["moof"]; ok {
+		fail("mp4.DecryptFragment", via+"-moof-children", wit, d)
 	}
-	if a, b := boxTypes(cf.Moof.Traf.Children), boxTypes(df.Moof.Traf.Children); a != b {
-		fail("mp4.TrafBox.RemoveEncryptionBoxes", via+"-traf-children", wit, "traf children "+b+" expected "+a)
+	if a, b := boxTypes(cf.Moof.Traf.Children), boxTypes(df.Moof.Traf.Children); a != b && !moduloSeig {
+		fail("mp4.TrafBox.RemoveEncryptionBoxes", via+"-traf-children", wit, "traf children "+b+" expected "+a+"; "+lists["traf"])
+	} else if d, ok := lists["traf"]; ok {
+		fail("mp4.TrafBox.RemoveEncryptionBoxes", via+"-traf-children", wit, d)
 	}
 	cs, err1 := cf.GetFullSamples(nil)
 	ds, err2 := df.GetFullSamples(nil)
@@ -726,6 +779,9 @@ func compareWithClear(wit, via string, clearRaw []byte, clearF *mp4.File, decRaw
 			fail("mp4.DecryptFragment", via+"-sample-metadata", wit, fmt.Sprintf("sample %d size/dur/flags/cto/time changed", i))
 			return
 		}
+	}
+	if moduloSeig {
+		return // offsets move with the seig boxes when decrypt drops them; the sample bytes were compared above
 	}
 	if cf.Moof.Traf.Trun.DataOffset != df.Moof.Traf.Trun.DataOffset {
 		fail("mp4.DecryptFragment", via+"-data-offset", wit, fmt.Sprintf("trun data offset %d expected %d", df.Moof.Traf.Trun.DataOffset, cf.Moof.Traf.Trun.DataOffset))
@@ -745,6 +801,8 @@ type fileOpts struct {
 	optTrun bool // the clear fragments were written with OptimizeTrun (sample defaults in tfhd)
 	baseVar int // 0: default-base-is-moof + trun data offset; 1: tfhd base_data_offset = moof start; 2: tfhd base_data_offset = mdat payload, trun without data offset
 	sig     bool // sample size / duration / flags signalled per fragment in trun, in tfhd defaults or ONLY in the trex defaults (+ first-sample-flags)
+	wide    wideOpts // init part: extra boxes in the stsd entry / moov / trak; fragments draw their own traf / moof extras
+	wideOn  bool
 }
 
 // buildClearFile: init + one segment with nfrags fragments. Returns the bytes.
@@ -752,6 +810,7 @@ func (e *env) buildClearFile(codec byte, scheme string, fo fileOpts, r *hx.Rng) 
 	initF, err := mp4.DecodeFile(bytes.NewReader(e.initFor(codec)))
 	must(err)
 	trackID := initF.Init.Moov.Trak.Tkhd.TrackID
+	applyWideInit(initF.Init, fo.wide)
 	// a trex with non-trivial defaults, as an external packager writes it; the template sample is the one every
 	// fragment that signals its sizes through trex.default_sample_size is made of
 	var template []byte
@@ -824,6 +883,9 @@ func (e *env) buildClearFile(codec byte, scheme string, fo fileOpts, r *hx.Rng) 
 		}
 		all = append(all, samples)
 		o := fragOpts{extraMoof: r.Pick(0, 0, 1, 2), extraTraf: r.Pick(0, 1, 2), moofBefore: r.Bool()}
+		if fo.wideOn {
+			o.wide = genWide(r, false)
+		}
 		frag := buildFragment(trackID, samples, o, r)
 		frag.Moof.Mfhd.SequenceNumber = uint32(k + 1)
 		applySignalling(frag, sg)
@@ -926,6 +988,10 @@ func searchFiles(e *env, r *hx.Rng, n int) {
 		}
 		fo.optTrun = i%3 == 1 && fo.baseVar == 0
 		fo.sig = i%2 == 0
+		if i%3 != 0 {
+			fo.wideOn = true
+			fo.wide = genWide(r, false)
+		}
 		clearRaw, samples := e.buildClearFile(codec, scheme, fo, r)
 		iv := genIV(r, r.Pick(8, 16))
 		key := r.Bytes(16, nil)
@@ -994,9 +1060,24 @@ func searchFiles(e *env, r *hx.Rng, n int) {
 					}
 				}
 			}
+			// which boxes? full child lists of every container; a difference below the top level is reported under
+			// its own class (so that it is not taken for the known sidx finding)
+			onlyTop := true
+			if fo.baseVar == 0 {
+				lists := compareChildLists(clearRaw, decRaw)
+				for _, k := range sortedKeys(lists) {
+					if k != "top" {
+						onlyTop = false
+						fail("mp4.EncryptFragment+DecryptSegment", "file-"+k+"-children", wit, lists[k])
+					}
+				}
+				if d, ok := lists["top"]; ok {
+					desc += "; " + d
+				}
+			}
 			if fo.baseVar != 0 {
 				fail("mp4.EncryptFragment+DecryptSegment", cls, wit, desc)
-			} else {
+			} else if onlyTop {
 				fail("mp4.EncryptFragment+DecryptSegment", cls+"-differs", wit, desc)
 			}
 		}
@@ -1025,7 +1106,7 @@ func searchBins(e *env, r *hx.Rng, n int, bins string) {
 		}
 		iv := genIV(r, r.Pick(8, 16))
 		key := r.Bytes(16, nil)
-		o := fragOpts{extraMoof: r.Pick(0, 1, 2), extraTraf: r.Pick(0, 1, 2, 3), moofBefore: r.Bool()}
+		o := fragOpts{extraMoof: r.Pick(0, 1, 2), extraTraf: r.Pick(0, 1, 2, 3), moofBefore: r.Bool(), wide: genWide(r, false)}
 		wit := fmt.Sprintf("binaries codec=%c scheme=%s key=%s iv=%s opts=%+v samples=%s", codec, scheme, hx.Hex(key), hx.Hex(iv), o, samplesField(samples))
 		initF, err := mp4.DecodeFile(bytes.NewReader(e.initFor(codec)))
 		must(err)
